@@ -12,6 +12,7 @@ struct SorterSpec {
 	uint64_t mergefail = 0;		// callback returns NULL at its j-th invocation (non-pooled only)
 	bool late_calls = false;	// after iteration started: further add/write calls must be refused
 	size_t abandon_after = (size_t)-1;	// stop iterating after n entries
+	bool check_spill = false;	// non-pooled: after every add the bytes buffered since the last observed spill are below the limit
 	bool yield_between = false;	// sim_yield() between API calls (caller tasks under the scheduler)
 	std::vector<std::pair<Bytes, Bytes>> adds;
 	std::string outpath;		// for finish == 1
@@ -21,6 +22,7 @@ struct SorterOutcome {
 	size_t limit_crossings = 0;	// how often the model says the buffered bytes reached the limit
 	bool add_failed = false, iter_null = false;
 	size_t returned = 0;
+	bool dup_across_chunks = false;	// (non-pooled) some key was added in two different chunks
 };
 // runs one sorter life cycle; model violations go to res (site prefix SORTER-)
 void run_sorter(const SorterSpec &s, RunResult &res, SorterOutcome &out);
